@@ -372,6 +372,10 @@ def make_world(worlds, docs, cfgs_all, cfgsel, atoms, combo, colls, maxn, extra_
     for i in cfgsel:
         if cfgs_all[i]["unknown"]["k"] != "none":
             walk_strings(cfgs_all[i]["unknown"], strings)
+        if cfgs_all[i]["hook"] == "nildef":
+            strings.add("dflt")                 # the value this hook supplies
+        if cfgs_all[i]["hook"] == "label":
+            strings |= {"n:" + s for s in strings if len(s) < 8}
     lits = literals_of(atoms) | set(extra_lits)
     parts = path_parts(atoms, colls)
     # json.Number texts are read as floats too
@@ -587,6 +591,7 @@ def api_world(mode, worlds, docs, cfgs_all, cfgsel, exprs, maxlen, evs=(), optio
     for c in cfgs_all:
         if c["unknown"]["k"] != "none":
             walk_strings(c["unknown"], strings)
+    strings.add("dflt")                         # the value supplied by the hook "nildef"
     for o in options:
         if o["o"] == "unknown" and o["v"]["k"] != "none":
             walk_strings(o["v"], strings)
@@ -680,6 +685,10 @@ def run_machine(chk, tag, docs, cfgs_all, cfgsel, exprs, timeout=3000):
     for i in cfgsel:
         if cfgs_all[i]["unknown"]["k"] != "none":
             walk_strings(cfgs_all[i]["unknown"], strings)
+        if cfgs_all[i]["hook"] == "nildef":
+            strings.add("dflt")                 # the value this hook supplies
+        if cfgs_all[i]["hook"] == "label":
+            strings |= {"n:" + s for s in strings if len(s) < 8}
     lits = literals_of(exprs)
     parts = path_parts(exprs, [])
     jn = {s for s in strings if len(s) < 30}
